@@ -382,7 +382,9 @@ Section Parsers.
       | VDict ((k0, v0) :: rest) =>
           let d := (k0, v0) :: rest in
           let* (d', escaped) := unescape_keys d [] [] false in
-          if escaped then Ok (inr (VDict d'))
+          (* the un-escaped mapping is built as a new dict: a key that an un-escaped key collides with keeps its place and
+             takes the later value (only possible for hand-written specs holding both "\path" and "path") *)
+          if escaped then Ok (inr (VDict (fold_left (fun acc kv => dict_put (fst kv) (snd kv) acc) d' [])))
           else
             match rest with
             | _ :: _ => Err MalformedPath
